@@ -42,6 +42,7 @@ from happysimulator.faults import (
     InjectPacketLoss,
     NetworkPartition,
     PauseNode,
+    RandomPartition,
     ReduceCapacity,
 )
 
@@ -50,7 +51,7 @@ from simkit.world import BudgetExceeded, InvalidScenario, Monitor, Violation, re
 INF = 1 << 62
 P = "C06"
 NODE_KINDS = ("plain", "gen", "server", "holder")
-FAULT_KINDS = ("crash", "pause", "partition", "latency", "loss", "capacity")
+FAULT_KINDS = ("crash", "pause", "partition", "latency", "loss", "capacity", "randpart")
 CANCEL_MODES = ("never", "pre", "post", "mid")
 FAULT_CLASS = {
     "crash": "NodeFault", "pause": "NodeFault", "partition": "NetworkPartition",
@@ -323,6 +324,15 @@ def validate(sc: dict) -> None:
             k = f["kind"]
             if k not in FAULT_KINDS or f.get("cancel", "never") not in CANCEL_MODES:
                 raise InvalidScenario("fault kind")
+            if k == "randpart":
+                if net is None or net["n"] < 3 or f.get("cancel", "never") == "mid":
+                    raise InvalidScenario("randpart needs >= 3 nodes; cancel-during-run undefined for it")
+                ns_ = f["nodes"]
+                if not 2 <= len(ns_) < net["n"] or len(set(ns_)) != len(ns_) or any(not 0 <= x < net["n"] for x in ns_):
+                    raise InvalidScenario("randpart nodes (at least one node must stay outside)")
+                if not (f["mtbf_ms"] >= 20 and f["mttr_ms"] >= 20):
+                    raise InvalidScenario("randpart timing")
+                continue
             s, e = f["start_ms"], f.get("end_ms")
             if not isinstance(s, int) or s < 1:
                 raise InvalidScenario("start")
@@ -334,7 +344,10 @@ def validate(sc: dict) -> None:
             if f.get("cancel") == "mid" and not 0 <= f.get("cancel_ms", -1) < s:
                 raise InvalidScenario("cancel_ms")
             if k in ("crash", "pause"):
-                if not 0 <= f["node"] < len(nodes):
+                if "netnode" in f:
+                    if net is None or not 0 <= f["netnode"] < net["n"]:
+                        raise InvalidScenario("netnode index")
+                elif not 0 <= f["node"] < len(nodes):
                     raise InvalidScenario("node index")
             elif k == "capacity":
                 if not 0 <= f["node"] < len(nodes) or nodes[f["node"]]["kind"] != "holder":
@@ -374,6 +387,7 @@ class FaultWorld:
         self.acqs: dict[str, list[_Acq]] = {}
         self.releasing: str | None = None
         self.probes: dict[tuple, list] = {}
+        self.random_pairs: set = set()     # ordered pairs a RandomPartition may cut at times the oracle does not model
         self.tl = Timeline()
         self.cancelled_windows: dict[tuple, list] = {}
         self.fired: Counter = Counter()
@@ -558,6 +572,19 @@ class FaultWorld:
             if sc.get("edge_jobs"):
                 bset = {ns_of_ms(f[k]) for f in sc["faults"] if f["kind"] in ("partition", "latency", "loss")
                         for k in ("start_ms", "end_ms") if f.get(k) is not None}
+            # messages in flight across a network node's crash / restart instants: sent half a link delay before the
+            # edge (always), and exactly one link delay before it (arrival lands on the edge instant; edge_jobs runs)
+            for f in sc["faults"]:
+                if "netnode" in f:
+                    for k in ("start_ms", "end_ms"):
+                        if f.get(k) is not None:
+                            for l in net["links"]:
+                                if l["b"] == f["netnode"]:
+                                    bn = ns_of_ms(l["base_us"] / 1000.0)
+                                    bset.add(ns_of_ms(f[k]) - bn // 2)
+                                    if sc.get("edge_jobs"):
+                                        bset.add(ns_of_ms(f[k]) - bn)
+            bset = {b for b in bset if b > 0}
             times = []
             while t < self.end_ns:
                 times.append(t)
@@ -618,16 +645,26 @@ class FaultWorld:
     def _make_fault(self, fi: int, f: dict):
         """-> (repo fault object, [(key, start_ns, end_ns, param)], [(event_type, t_ns)])"""
         k = f["kind"]
+        if k == "randpart":
+            names = [f"n{x}" for x in f["nodes"]]
+            obj = RandomPartition(nodes=names, mtbf=f["mtbf_ms"] / 1000.0, mttr=f["mttr_ms"] / 1000.0,
+                                  seed=f["rseed"], network_name="net" if f.get("named", True) else None)
+            if f.get("cancel", "never") == "never":
+                for x in names:
+                    for y in names:
+                        if x != y:
+                            self.random_pairs.add(("net", x, y))
+            return obj, [], []
         s_ms, e_ms = f["start_ms"], f.get("end_ms")
         s, e = ns_of_ms(s_ms), (ns_of_ms(e_ms) if e_ms is not None else INF)
         ssec, esec = s_ms / 1000.0, (e_ms / 1000.0 if e_ms is not None else None)
         if k == "crash":
-            name = f"t{f['node']}"
+            name = f"n{f['netnode']}" if "netnode" in f else f"t{f['node']}"
             obj = CrashNode(name, at=ssec, restart_at=esec)
             edges = [(f"fault.crash:{name}", s)] + ([(f"fault.restart:{name}", e)] if e < INF else [])
             return obj, [(("node", name), s, e, None)], edges
         if k == "pause":
-            name = f"t{f['node']}"
+            name = f"n{f['netnode']}" if "netnode" in f else f"t{f['node']}"
             obj = PauseNode(name, start=ssec, end=esec)
             return obj, [(("node", name), s, e, None)], [(f"fault.pause:{name}", s), (f"fault.resume:{name}", e)]
         if k == "capacity":
@@ -816,7 +853,9 @@ class FaultWorld:
                     self.states.add("part:" + "+".join(sorted(w[4] for w in active)))
                     if obs and any(edge == "end" for edge, _ in tl.last_edges(key, t)):
                         self.c["probe.overlap_held.partition_after_other_window_ended"] = 1
-                if obs != bool(active):
+                if obs and not active and key[1:] in self.random_pairs:
+                    self.c["probe.random_partition_cut_observed"] = 1
+                elif obs != bool(active):
                     if not tl.has(key):
                         cw = [c for c in self.cancelled_windows.get(key, ()) if c[0] <= t <= c[1]]
                         if cw:
@@ -908,6 +947,20 @@ class FaultWorld:
         lat0, loss0, base_ns = self.link_cfg[(netname, a, b)]
         if at != b:
             raise Violation(f"{P}/probe-misdelivered/Network/wrong-destination", f"probe {pid} {a}->{b} arrived at {at}")
+        kn = ("node", b)
+        if tl.has(kn):
+            self._tie(kn, t, "arrival")
+            down = tl.active(kn, t)
+            if down:
+                sig = self._attr(kn, t, "NodeFault", "missing")
+                if sig.startswith("not-in-effect"):
+                    sig = "down-target-ran/netnode/" + "+".join(sorted({w[3] for w in down})) + sig[len("not-in-effect/NodeFault"):]
+                raise Violation(f"{P}/{sig}", f"network node {b} handled probe {pid} ({netname} {a}->{b}, sent {sent}ns) at "
+                                f"t={t}ns inside its crash/pause window(s) {[w[2] for w in down]}")
+            if tl.active(kn, sent):
+                self.c["probe.message_sent_while_destination_down_handled_after_restart"] += 1
+            if any(w[1] == t for w in tl.w[kn]):
+                self.c["probe.boundary_exact.message_arrives_at_restart_instant"] += 1
         if not self._tie(kp, sent, "probe"):
             act = tl.active(kp, sent)
             if act:
@@ -967,6 +1020,10 @@ class FaultWorld:
     def _fault_fired(self, et, t):
         self.fired[(et, t)] += 1
         self.c[et.split(":")[0]] += 1
+        if et.startswith("fault.random_partition"):
+            self._last_seg = -1      # partition sets changed at an instant the timeline does not know: re-check state
+        if et == "fault.random_partition.fault" and any(k[0] == "part" and self.tl.active(k, t) for k in self.tl.w):
+            self.c["probe.random_cycle_started_inside_scheduled_partition_window"] = 1
         if self.fired[(et, t)] > self.expected_edges.get((et, t), 0) and (et, t) in self.cancelled_edges:
             when = self.cancelled_edges[(et, t)]
             raise Violation(f"{P}/cancel-ineffective/FaultSchedule/{when}",
@@ -1074,8 +1131,24 @@ class FaultWorld:
                 self.c["probe.probe_dropped_by_loss"] += 1
                 self.judged_in_window += 1
                 continue
-            if loss0 > 0:
+            if loss0 > 0 or (netname, a, b) in self.random_pairs:
                 continue
+            kn = ("node", b)
+            if tl.has(kn):
+                # when does it reach the destination?  base + every extra active at send time (at least the largest)
+                ex = [w[4] for w in tl.active(("lat", netname, a, b), sent)]
+                lo, hi = sent + base_ns + max(ex, default=0) - LAT_TOL_NS, sent + base_ns + sum(ex) + LAT_TOL_NS
+                states = {bool(tl.active(kn, x)) for x in (lo, hi)}
+                if any(lo <= bd <= hi for bd in tl.bset[kn]) or len(states) > 1:
+                    continue                                   # arrival too close to a crash/restart edge to call
+                if True in states:
+                    self.c["probe.message_dropped_by_down_destination"] += 1
+                    self.judged_in_window += 1
+                    continue
+                if tl.active(kn, sent):
+                    raise Violation(f"{P}/message-lost/netnode/sent-while-destination-down-arrival-after-restart",
+                                    f"probe {pid} {netname} {a}->{b} sent at {sent}ns while {b} was down reaches it at "
+                                    f">= {lo + LAT_TOL_NS}ns, after the restart, but was never handled")
             for key, fc in ((kp, "NetworkPartition"), (kl, "InjectPacketLoss")):
                 if tl.has(key) or self.cancelled_windows.get(key):
                     sig = self._attr(key, sent, fc, "lingering")
@@ -1128,8 +1201,9 @@ class FaultWorld:
         """Log streams that no fault may influence."""
         out = []
         targeted = set()
+        down_nodes = {f["netnode"] for f in self.sc["faults"] if "netnode" in f}
         for f in self.sc["faults"]:
-            if f["kind"] in ("crash", "pause", "capacity"):
+            if f["kind"] in ("crash", "pause", "capacity") and "node" in f:
                 targeted.add(f["node"])
         for i, n in enumerate(self.sc["nodes"]):
             out += [f"b{i}", f"sb{i}"]
@@ -1150,8 +1224,10 @@ class FaultWorld:
                         for y in f["b"]:
                             touched.add((x, y))
                             touched.add((y, x))
+                elif f["kind"] == "randpart":
+                    touched |= {(x, y) for x in f["nodes"] for y in f["nodes"] if x != y}
             for l in net["links"]:
-                if l["loss"] > 0:
+                if l["loss"] > 0 or l["b"] in down_nodes:   # both networks deliver to the same node entities
                     continue
                 out.append(f"netb:n{l['a']}->n{l['b']}")
                 if (l["a"], l["b"]) not in touched:
